@@ -11,6 +11,8 @@ func main() {
 		os.Exit(2)
 	}
 	switch os.Args[1] {
+	case "check":
+		checkMain(os.Args[2:])
 	case "schema":
 		schemaMain(os.Args[2:])
 	default:
